@@ -32,7 +32,21 @@ if os.path.exists("/verif/seeded/REVERT_MATRIX.tsv"):
         if len(p) >= 3:
             rev.append("| `%s` | %s | %s |" % (p[0], p[1].replace("|", "\\|")[:110], p[2]))
 rev_tab = "\n".join(rev)
-missing = [r for r in rev if r.rstrip(" |").endswith("NONE")]
+missing = [r for r in rev if "| NONE" in r]
+ba_sec = ""
+if os.path.exists("/verif/seeded/BEFORE_AFTER.txt"):
+    ba_sec = """### 7.3 Fixes that cannot be reverted alone: before / after
+
+Later fixes touch the same lines of five fixes, so `git apply -R` of the single commit fails (or the result does
+not build). For these `tools/beforeafter.sh` runs the quick checks on a scratch worktree at the commit's parent and
+at the commit itself; both trees still contain all defects repaired later, so both fail - what counts is the set of
+violation classes `(check, entry, symptom, class)` that is reported before the fix and no longer after it:
+
+```
+""" + open("/verif/seeded/BEFORE_AFTER.txt").read().rstrip() + """
+```
+"""
+
 
 sec = """## 7. Demonstrating detection
 
@@ -94,6 +108,29 @@ change is kept, the check was extended, then re-confirmed):
   slice whose capacity equals its length, family `json-broken-escapes`;
 * `C06-r2-1` (payload byte 0x4E swallowed as no-op in typed objects) → a payload starting with
   `N` for every element type of typed containers.
+* `C08-r2-1` (element-type stack one level too deep after a typed object nested in an element of a typed
+  container of containers; seen by C06) → family `ubj-typed-nesting` (all consumers of the UBJSON corpus);
+* `C11-r2-1` (finished nested array read from a reallocated scratch slice: unannounced arrays ≥ 5 deep into
+  `interface{}`; seen by C13) → `deep` seeds (generic data nested 5–17 deep) in the Go space;
+* `C11-r2-2` (small-struct fast path wrong for exactly 8 reported fields) → family `struct-wide` (0–24 fields);
+* `C12-r2-1` (a bare tag name that spells an option keyword, `struct:"omit"`, treated as the option) → 16 more tag spellings;
+* `C12-r2-2` (inline folder keeps its nesting depth after a fold that failed inside the inlined object) →
+  families `iterator-after-failed-fold*` (value a fails at event k, then value b on the same iterator);
+* `C13-r2-1` (two levels of inlining, the first not at offset 0: inner fields stored at another field's address) →
+  `inline-nest` in the Go space and the Go space as typed targets of C13 (`go-targets-*`);
+* `C14-r2-1` (`Reset` rebuilds the context without the tag option; only a struct type first compiled after the
+  `Reset` shows it) → reference behaviour = unfolder as `NewUnfolder` left it, tag-sensitive follow-up type;
+* `C14-r2-2` (null for a struct-typed field leaves the child's address as base pointer: later fields written
+  past the target) → targets with a field of every type in the middle of a struct;
+* `C15-r2-1` (recycled key-cache node keeps the zero-copy key; needs more distinct keys than the cache holds; seen by C20),
+  `C15-r2-2` (reflected map unfolder keeps a view of the key across callbacks / on the null path; seen by C13) →
+  the follow-up document's target is compared with its clean run after all buffers were overwritten, second
+  document shape with object and null values into `map[string]struct`, `map[string]*struct`,
+  `map[string]map[string]string`, key caches of 1 and 2 entries;
+* `C17-r2-1` (stale key-cache map entry after eviction; seen by C20) → three `Unfolder(EnableKeyCache(n))` components in C17;
+* `C19-r2-1` (package-level free list for unquote buffers) → long escaped strings with different content per thread;
+* `C03-r2-2` (truncation not reported when the reader returns its last chunk together with `io.EOF`; seen by C18) →
+  two more entry points in C03 (readers returning data + `io.EOF`).
 
 | seed | what it needs to manifest (author's note) | caught by (confirmation run) | regression run of its own property's check |
 |---|---|---|---|
@@ -118,9 +155,22 @@ defects were there) and runs the quick checks of the relevant properties.
 
 %s
 
+%s
+
+### 7.4 The other direction: behaviour-preserving changes raise no alarm
+
+`seeded/benign/benign1.diff` and `benign2.diff` are refactorings a maintainer might make without changing
+behaviour: the JSON parser's literal buffer doubled, a new private field, other initial capacities of the unfolder's
+scratch slices, members of inlined maps folded in sorted key order, the JSON encoder's scratch array enlarged, and
+**every error text of the three parsers and of gotype reworded**. The repository's suite passes with them, and all
+twenty quick checks exit 0 on the changed trees (`tools/mut.sh seeded/benign/benign1.diff C01 ... C20`): the
+oracles do not depend on buffer geometry, private field layout, map iteration order or error texts (known findings are
+matched by witness class, state comparisons by slice *depths* of the idle instance, errors by `errors.Is` / nil-ness).
+`seeded/hand/` holds hand-written property-breaking changes used while building individual families (see its README).
+
 ---------------------------------------------------------------------------
 
-""" % (seed_tab, rev_tab, ("Fixes whose revert is not detected by any quick check: %d (see rows with NONE)." % len(missing)) if missing else "Every revertible fix is detected by at least one quick check.")
+""" % (seed_tab, rev_tab, ba_sec, ("Fixes whose revert is not detected by any quick check: %d (see rows with NONE)." % len(missing)) if missing else "Every revertible fix is detected by at least one quick check.")
 s = s[:i] + sec + s[j:]
 open(D, "w").write(s)
 print("seeds:", len(rows), "reverts:", len(rev), "undetected reverts:", len(missing))
